@@ -949,7 +949,7 @@ def run_generated(rep, tier):
     servers, handles = server_metadata(prog, it0, GCRATE, r'::__(G\d+)Endpoint<', exclude='AsyncGsvc')
     if set(servers) < {'g1', 'g2', 'g3'}:
         raise Inconclusive(f'C04 harness: generated endpoints not found: {servers}')
-    rep.bounds['generated'] = f'generated clients (blocking: g1-g6; async: g1, g3, g4) and generated #[conjure_endpoints] trait of gen-crates/service (real conjure-codegen output; server metadata {servers}); list query argument of 0..2 integers; set<string> query argument of 0..2 distinct members; optional<string> body and optional<string> result, present and absent'
+    rep.bounds['generated'] = f'generated clients (blocking: g1-g6; async: g1, g3, g4) and generated #[conjure_endpoints] trait of gen-crates/service (real conjure-codegen output; server metadata {servers}); list query argument of 0..2 integers; set<string> query argument of 0..2 distinct members; optional<string> body and optional<string> result, present and absent (these two strings <= 4 bytes in every tier: their JSON texts with escapes are the costly part)'
     tenv = {'T': ('path', 'MockClient', ())}
 
     def mk(rets):
@@ -1024,9 +1024,9 @@ def run_generated(rep, tier):
             if ns == 2:
                 st.pc.append(z3.Not(bstr_eq(members[0][1], members[1][1])))
             sp = st.ref(Seq(tuple(s_ for _, s_ in members)))
-            bp, bs = sym_str(st, 'opt_body', L)
+            bp, bs = sym_str(st, 'opt_body', min(L, 4))
             b_has = z3.Bool('opt_body_some')
-            rp, rs = sym_str(st, 'ret_opt', L)
+            rp, rs = sym_str(st, 'ret_opt', min(L, 4))
             r_has = z3.Bool('ret_opt_some')
             it = mk({})
             it = mk({'g4': it.opt(r_has, rs)})
@@ -1094,9 +1094,9 @@ def run_generated(rep, tier):
         c = GenCase('g4', 'GsvcAsync')
         members = [sym_str(st, 'set0', L)]
         sp = st.ref(Seq(tuple(s_ for _, s_ in members)))
-        bp, bs = sym_str(st, 'opt_body', L)
+        bp, bs = sym_str(st, 'opt_body', min(L, 4))
         b_has = z3.Bool('opt_body_some')
-        rp, rs = sym_str(st, 'ret_opt', L)
+        rp, rs = sym_str(st, 'ret_opt', min(L, 4))
         r_has = z3.Bool('ret_opt_some')
         it = mk({})
         it = mk({'g4': it.opt(r_has, rs)})
@@ -1147,9 +1147,9 @@ def run_generated(rep, tier):
         c = GenCase('g4', 'Gsvc')
         members = [sym_str(st, 'set0', L)]
         sp = st.ref(Seq(tuple(s_ for _, s_ in members)))
-        bp, bs = sym_str(st, 'opt_body', L)
+        bp, bs = sym_str(st, 'opt_body', min(L, 4))
         b_has = z3.Bool('opt_body_some')
-        rp, rs = sym_str(st, 'ret_opt', L)
+        rp, rs = sym_str(st, 'ret_opt', min(L, 4))
         r_has = z3.Bool('ret_opt_some')
         it = mka({})
         it = mka({'g4': it.opt(r_has, rs)})
